@@ -12,8 +12,8 @@ import build  # noqa: E402
 
 VERIF = build.VERIF
 NCPU = build.NCPU
-EVIDENCE_DIR = os.path.join(VERIF, "evidence")
-REPLAY_DIR = os.path.join(VERIF, "replay")
+EVIDENCE_DIR = os.environ.get("VERIF_EVIDENCE_DIR") or os.path.join(VERIF, "evidence")
+REPLAY_DIR = os.environ.get("VERIF_REPLAY_DIR") or os.path.join(VERIF, "replay")
 KNOWN_FILE = os.path.join(VERIF, "known_findings.json")
 
 SAN_ENV = {
